@@ -380,6 +380,42 @@ S_AER2_REF = 'aer2enu = reference'
 S_AER_EXC = 'AER call returns'
 
 
+def job_ellipsoids(ctx):
+    """The optional ellipsoid radii a, b through every entry point that accepts them (geodetic2ecef, ecef2geodetic, its synonym ecef2lla,
+    ecef2enu / enu2ecef / geodetic2enu): same round trips on other ellipsoids."""
+    import math
+    from ahrs.common import frames as FR
+    ELL = [('Clarke1866', 6378206.4, 6356583.8), ('Bessel1841', 6377397.155, 6356078.963), ('Mars', 3396190.0, 3376200.0), ('sphere', 6371000.0, 6371000.0)]
+    for en, a, b in ELL:
+        e2 = (a * a - b * b) / (a * a)
+        for lat in (-89.0, -45.0, -10.0, 0.0, 23.5, 60.0, 90.0):
+            for lon in (-180.0, -75.0, 0.0, 110.0, 180.0):
+                for h in (-1000.0, 0.0, 5.0e4):
+                    key = f'ellipsoid={en} lat={lat} lon={lon} h={h}'
+                    N = a / math.sqrt(1 - e2 * math.sin(math.radians(lat)) ** 2)
+                    ref = np.array([(N + h) * math.cos(math.radians(lat)) * math.cos(math.radians(lon)), (N + h) * math.cos(math.radians(lat)) * math.sin(math.radians(lon)),
+                                    (N * (1 - e2) + h) * math.sin(math.radians(lat))])
+                    try:
+                        X = np.asarray(FR.geodetic2ecef(lat, lon, h, a, b), float)
+                        ctx.close(X, ref, 1e-6, 'geodetic2ecef(lat, lon, h, a, b) = closed form on that ellipsoid', key)
+                        for fn_name in ('ecef2geodetic', 'ecef2lla'):
+                            back = np.asarray(getattr(FR, fn_name)(X[0], X[1], X[2], a, b), float)
+                            dlon = ((back[1] - lon + 180.0) % 360.0 - 180.0) * math.cos(math.radians(lat)) if abs(lat) < 90 else 0.0
+                            ctx.expect(abs(back[0] - lat) <= 1e-7 and abs(dlon) <= 1e-8 and abs(back[2] - h) <= 1e-3, f'geodetic -> ECEF -> {fn_name} with explicit a, b returns the point',
+                                       key, back, [lat, lon, h], 1e-3)
+                        enu = np.asarray(FR.ecef2enu(X[0], X[1], X[2], lat, lon, h, a, b), float)
+                        ctx.close(enu, np.zeros(3), 1e-6, 'ecef2enu(..., a, b) maps the origin to zero on that ellipsoid', key)
+                        back2 = np.asarray(FR.enu2ecef(10.0, -20.0, 30.0, lat, lon, h, a, b), float)
+                        enu2 = np.asarray(FR.ecef2enu(back2[0], back2[1], back2[2], lat, lon, h, a, b), float)
+                        ctx.close(enu2, np.array([10.0, -20.0, 30.0]), 1e-6, 'ENU -> ECEF -> ENU with explicit a, b', key)
+                    except Exception as ex:
+                        ctx.evals += 1
+                        ctx.fail('frame conversion with explicit a, b raises', key, f'{type(ex).__name__}: {ex}'[:160], 'completes')
+                    ctx.seen(('ell', en, lat, lon, h))
+                    ctx.cls('ellipsoid:explicit a,b')
+    ctx.sample({'ellipsoids': [e[0] for e in ELL]})
+
+
 def job_aer(ctx, deg):
     F = _F()
     unit = 'deg' if deg else 'rad'
@@ -571,6 +607,7 @@ def run(ctx):
         for lo, hi in core.chunks(nA, 8 if ctx.thorough else 2):
             jobs.append(('job_dca', (deg, lo, hi)))
     jobs.append(('job_ned', ()))
+    jobs.append(('job_ellipsoids', ()))
     jobs.append(('job_llf', ()))
     # longest jobs first is irrelevant for determinism (results are merged in job order)
     core.run_jobs(ctx, __name__, jobs)
